@@ -199,8 +199,20 @@ def free_chunk(cases, extra):
     setup_repo_path()
     sys.stdout = open(os.devnull, "w")     # zombie threads print to the worker's real stdout; results travel by pipe
     out = []
+    import tempfile
+    import shutil
+    home = os.getcwd()
     for kind, allowed, fin_n in cases:
-        o = run_kind(kind, allowed, fin_n)
+        # coverage.py keeps its data file in the current directory: every measured case gets a directory of its own
+        scratch = tempfile.mkdtemp(prefix="vp_c14_") if kind.endswith("_cov") else None
+        if scratch:
+            os.chdir(scratch)
+        try:
+            o = run_kind(kind, allowed, fin_n)
+        finally:
+            if scratch:
+                os.chdir(home)
+                shutil.rmtree(scratch, ignore_errors=True)
         o["violated"] = judge(o)
         out.append(dict(o))
     return out
